@@ -50,14 +50,32 @@ def main(tier, replay=None):
     with concurrent.futures.ThreadPoolExecutor(max_workers=4) as ex:
         f_lib = ex.submit(build, chk)
         fm = model_runs(chk, tier, ex)
+        f_limpl = ex.submit(vlib.tlc, "ListImpl", "List_impl_edges.cfg", chk.wd, 4, "4g")        # List.c transcribed: links, head, tail, List_At from either end
+        f_lbug = ex.submit(vlib.tlc, "ListImpl", "List_bug_staleprev.cfg", chk.wd, 2, "2g")
         harness = f_lib.result()
         models = {k: f.result() for k, f in fm.items()}
+        r_limpl, r_lbug = f_limpl.result(), f_lbug.result()
     chk.lap("built + TLC exhaustive")
     if replay:
         return runner.replay_file(chk, harness, replay, "SeqTrace", "SeqTrace_seq.cfg", HDR_WORDS)
 
+    chk.model(r_limpl, "ListImpl/List_impl_edges.cfg")
+    if not r_limpl.ok:
+        print("MODEL-DRIFT module=ListImpl: %s" % r_limpl.invariant, flush=True)
+    if r_lbug.ok:
+        raise vlib.ToolError("ListImpl does not refute a stale prev link of the head: invariants vacuous")
     camp = runner.Campaign(chk, harness, "SeqTrace", "SeqTrace_seq.cfg")
     vt = {0: 1, 1: 2, 2: 3}
+    # every transition of the linked-list implementation model (walks from the head and from the tail, the four link / unlink cases)
+    ledges = list(r_limpl.lines("EDGE"))
+    vlib.require_ops(ledges, ("push", "pop", "pushat", "popat", "set", "get", "rem", "resize"), "ListImpl")
+    g = edgecover.Graph(ledges)
+    lpaths, lcov, ltot = g.cover([[], 0], mode="edges", maxlen=60, rng=rng, budget=20000 if quick else None)
+    chk.cov["model_edges"] = chk.cov.get("model_edges", 0) + ltot
+    chk.cov["model_edges_replayed"] = chk.cov.get("model_edges_replayed", 0) + lcov
+    lm = seqgen.ModelScripts("List", vt, True)
+    camp.run(seqgen.header("Int", INTS), [lm.execution(p) for p in lpaths], "replay/ListImpl/Int", variant="ListImpl")
+    camp.run(seqgen.header("Probe", INTS), [lm.execution(p) for p in lpaths[::2]], "replay/ListImpl/Probe", variant="ListImpl")
     for kind in ("Array", "List", "Tuple"):
         paths = model_execs(chk, kind, models[kind], rng, 20000 if quick else None)
         full = seqgen.ModelScripts(kind, vt, True)
